@@ -324,6 +324,129 @@ def generate(repo='/repo'):
     return text + '\n'.join(generate_ledger_props(tree)) + '\n'
 
 
+# ---------------------------------------------------------------------------------------------------------------------------------
+# Signal.__getitem__ / RadioSignal.__getitem__ -> Gen/GenGetitem.v : the index dispatch (which items must be slices, which item goes to
+# which slicing routine, in which order, under which condition).  FullStokesSignal.__getitem__ (component names) is pinned.
+def _is(node, text):
+    try:
+        if isinstance(node, ast.stmt):
+            return ast.dump(node) == ast.dump(ast.parse(text).body[0])
+        return ast.dump(node) == ast.dump(ast.parse(text, mode='eval').body)
+    except SyntaxError:
+        return False
+
+
+def _small_nat(n, what):
+    if isinstance(n, ast.Constant) and isinstance(n.value, int) and not isinstance(n.value, bool) and 0 <= n.value <= 8:
+        return n.value
+    raise Unsupported(f'{what}: expected a small non-negative integer literal, found ' + ast.unparse(n))
+
+
+def _getitem(tree, cls, routines):
+    """-> (guard width, [(routine, item number, needed-length or None)]) read from cls.__getitem__"""
+    fn = find_method(tree, cls, '__getitem__')
+    if [a.arg for a in fn.args.args] != ['self', 'index'] or fn.args.vararg or fn.args.kwarg or fn.args.kwonlyargs or fn.args.defaults or fn.decorator_list:
+        raise Unsupported(f'{cls}.__getitem__: signature')
+    body = strip_doc(fn)
+    if len(body) < 5:
+        raise Unsupported(f'{cls}.__getitem__: too few statements')
+    if not _is(body[0], 'if not isinstance(index, tuple):\n    index = (index,)'):
+        raise Unsupported(f'{cls}.__getitem__: index normalisation  ' + ast.unparse(body[0])[:120])
+    g = body[1]
+    ok = (isinstance(g, ast.If) and not g.orelse and isinstance(g.test, ast.UnaryOp) and isinstance(g.test.op, ast.Not)
+          and isinstance(g.test.operand, ast.Call) and _is(g.test.operand.func, 'all') and len(g.test.operand.args) == 1
+          and not g.test.operand.keywords and isinstance(g.test.operand.args[0], ast.GeneratorExp))
+    if not ok:
+        raise Unsupported(f'{cls}.__getitem__: guard  ' + ast.unparse(g)[:160])
+    ge = g.test.operand.args[0]
+    if not (_is(ge.elt, 'isinstance(a, slice)') and len(ge.generators) == 1 and isinstance(ge.generators[0].target, ast.Name) and ge.generators[0].target.id == 'a' and not ge.generators[0].ifs
+            and not ge.generators[0].is_async):
+        raise Unsupported(f'{cls}.__getitem__: guard element  ' + ast.unparse(ge)[:160])
+    it = ge.generators[0].iter
+    if not (isinstance(it, ast.Subscript) and _is(it.value, 'index') and isinstance(it.slice, ast.Slice) and it.slice.lower is None
+            and it.slice.step is None and it.slice.upper is not None):
+        raise Unsupported(f'{cls}.__getitem__: guarded items  ' + ast.unparse(it))
+    width = _small_nat(it.slice.upper, 'guard width')
+    # the guard body must raise IndexError (message free)
+    gb = g.body
+    if not (len(gb) in (1, 2) and isinstance(gb[-1], ast.Raise) and isinstance(gb[-1].exc, ast.Call) and _is(gb[-1].exc.func, 'IndexError')
+            and all(isinstance(x, ast.Assign) and isinstance(x.value, ast.Constant) and isinstance(x.value.value, str) for x in gb[:-1])):
+        raise Unsupported(f'{cls}.__getitem__: the guard must raise IndexError')
+    if not (_is(body[2], 'kw = dict()') or _is(body[2], 'kw = {}')):
+        raise Unsupported(f'{cls}.__getitem__: expected kw = dict(), found  ' + ast.unparse(body[2]))
+    ups = []
+
+    def update(st, need):
+        if not (isinstance(st, ast.Expr) and isinstance(st.value, ast.Call) and _is(st.value.func, 'kw.update') and len(st.value.args) == 1
+                and not st.value.keywords):
+            raise Unsupported(f'{cls}.__getitem__: expected kw.update(...), found  ' + ast.unparse(st)[:120])
+        c = st.value.args[0]
+        if not (isinstance(c, ast.Call) and isinstance(c.func, ast.Attribute) and _is(c.func.value, 'self') and c.func.attr in routines
+                and len(c.args) == 1 and not c.keywords and isinstance(c.args[0], ast.Subscript) and _is(c.args[0].value, 'index')):
+            raise Unsupported(f'{cls}.__getitem__: slicing routine call  ' + ast.unparse(c)[:120])
+        ups.append((c.func.attr, _small_nat(c.args[0].slice, 'item number'), need))
+    for st in body[3:-1]:
+        if isinstance(st, ast.If):
+            t = st.test
+            if not (not st.orelse and isinstance(t, ast.Compare) and len(t.ops) == 1 and isinstance(t.ops[0], ast.Gt) and _is(t.left, 'len(index)')):
+                raise Unsupported(f'{cls}.__getitem__: condition  ' + ast.unparse(t))
+            need = _small_nat(t.comparators[0], 'needed length')
+            for x in st.body:
+                update(x, need)
+        else:
+            update(st, None)
+    if not _is(body[-1], 'return type(self).like(self, self.data[index], **kw)'):
+        raise Unsupported(f'{cls}.__getitem__: return  ' + ast.unparse(body[-1])[:160])
+    return width, ups
+
+
+def generate_getitem(repo='/repo'):
+    tree = ast.parse(pathlib.Path(repo, 'pulsarbat', 'core.py').read_text())
+    out = ['(* GENERATED by translate/py_ledger2coq.py from Signal.__getitem__ / RadioSignal.__getitem__ (core.py) -- do not edit *)',
+           'From Coq Require Import ZArith QArith List Bool.', 'From PB Require Import Lib.PySlice Model.Ledger Model.Band Model.Getitem.',
+           'Import ListNotations.', 'Open Scope Z_scope.',
+           '(* state while the keyword updates run: the ledger result so far and the band result so far *)',
+           'Definition gen_time_update (l : ledger) (index : list item) (k : nat) (cont : ledger -> Z -> Z -> gres) : gres :=\n'
+           '  match nth_error index k with\n  | None => GIndex\n  | Some IOther => GOther\n  | Some (ISlice a b c) =>\n'
+           '      match time_slice l a b c with Err e => GTime e | Ok l1 off st => cont l1 off st end\n  end.',
+           'Definition gen_freq_update (bd : band) (index : list item) (k : nat) (cont : option (band * Z) -> gres) : gres :=\n'
+           '  match nth_error index k with\n  | None => GIndex\n  | Some IOther => GOther\n  | Some (ISlice a b c) =>\n'
+           '      match freq_slice bd a b c with BErr e => GFreq e | BOk b1 lo => cont (Some (b1, lo)) end\n  end.']
+    for cls, name, routines in (('Signal', 'signal', ('_time_slice',)), ('RadioSignal', 'radio', ('_time_slice', '_freq_slice'))):
+        width, ups = _getitem(tree, cls, routines)
+        if [u[0] for u in ups].count('_time_slice') != 1 or ups[0][0] != '_time_slice' or ups[0][2] is not None:
+            raise Unsupported(f'{cls}.__getitem__: exactly one unconditional _time_slice update must come first')
+        if len(ups) > 2 or (len(ups) == 2 and ups[1][0] != '_freq_slice'):
+            raise Unsupported(f'{cls}.__getitem__: updates ' + repr(ups))
+        args = '(l : ledger) (index : list item)' if name == 'signal' else '(l : ledger) (bd : band) (index : list item)'
+        inner = 'GOk l1 off st None'
+        if len(ups) == 2:
+            _, k, need = ups[1]
+            fr = f'gen_freq_update bd index {k} (fun r => GOk l1 off st r)'
+            inner = fr if need is None else f'if Nat.ltb {need} (length index) then {fr} else GOk l1 off st None'
+        out.append(f'Definition gen_{name}_guard_width : nat := {width}%nat.')
+        out.append(f'Definition gen_{name}_getitem {args} : gres :=\n  if negb (forallb is_slice (firstn gen_{name}_guard_width index)) then GIndex else\n'
+                   f'  gen_time_update l index {ups[0][1]} (fun l1 off st => {inner}).')
+    # FullStokesSignal.__getitem__: component names -> IntensitySignal, everything else to the parent; pinned
+    fs = strip_doc(find_method(tree, 'FullStokesSignal', '__getitem__'))
+    want = ('if isinstance(key, str):\n    index = self._stokes_ids.get(key)\n    if index is None:\n        err = "x"\n        raise KeyError(err)\n'
+            '    else:\n        axis = self.get_axis("pol")\n        x = np.take(self.data, index, axis=axis)\n        return IntensitySignal.like(self, x)\n'
+            'else:\n    return super().__getitem__(key)')
+
+    class NoMsg(ast.NodeTransformer):
+        def visit_Assign(self, n):
+            if isinstance(n.targets[0], ast.Name) and n.targets[0].id == 'err' and isinstance(n.value, ast.Constant) and isinstance(n.value.value, str):
+                n.value = ast.Constant('x')
+            return n
+    got = ast.dump(NoMsg().visit(ast.parse(ast.unparse(fs[0])).body[0])) if len(fs) == 1 else ''
+    pinned = got == ast.dump(ast.parse(want).body[0])
+    out.append('(* FullStokesSignal.__getitem__: a string key selects along the pol axis into an IntensitySignal built with like(self, ...) (no time or'
+               '\n   frequency keyword is overridden); any other key goes to RadioSignal.__getitem__ *)')
+    out.append(f'Definition gen_stokes_getitem_is_component_or_parent : bool := {"true" if pinned else "false"}.')
+    return '\n'.join(out) + '\n'
+
+
 if __name__ == '__main__':
     sys.stdout.write(generate(sys.argv[1] if len(sys.argv) > 1 else '/repo'))
     sys.stdout.write(generate_band(sys.argv[1] if len(sys.argv) > 1 else '/repo'))
+    sys.stdout.write(generate_getitem(sys.argv[1] if len(sys.argv) > 1 else '/repo'))
